@@ -82,10 +82,15 @@ RULE = ("the lattice emitter kind (GaussianEmitter, IsoLineEmitter, GeneticAlgor
         "clear) are drawn at random; every batch a clipping emitter's ask() hands out is overwritten in place after "
         "it was read, and initial_solutions cases end with clear / ask sequences, so that the configured initial "
         "solutions must come back on every later empty archive. Stratum pycma_shared: two pycma_es emitters (different "
-        "batch sizes, bounds, seeds) built from ONE shared es_kwargs dict, run past their restarts. A case is non-trivial when it asks at least "
+        "batch sizes, bounds, seeds) built from ONE shared es_kwargs dict, run past their restarts. Strata long_<es>: "
+        "deterministic long histories (260-400 iterations) of every strategy on the linear objective f(x) = x[0]. The ES "
+        "bounds layouts include 'halfspace' (every dimension bounded on one side only). A case is non-trivial when it asks at least "
         "once on a non-empty archive and the configuration has a finite bound or mixed dtypes; counted once per "
         "distinct operation list (the first entry names the configuration).")
 PARTIAL = [
+    "open finding D51 (sep_cma_es diverges to inf on the linear objective f(x) = x[0]; float32 at iteration 108): one "
+    "deterministic case on every run (stratum long_sep_cma_es), printed as KNOWN-FINDING while the entry is open; the "
+    "strata long_<es> run every strategy for 260-400 iterations on that objective and read finite / shape / dtype",
     "'finite' is monitored on every sampled iteration, not proved: the model computes in Q, and an adversarial "
     "ranking sequence makes sigma overflow in any CMA-ES after enough iterations",
     "pycma_es is a black box: held to the observable clauses (finite, shape, dtype, bounds) only",
@@ -93,6 +98,11 @@ PARTIAL = [
     "T08.4 is the post-condition 'if the loop returns'",
 ]
 ASSUMPTIONS = [
+    "inputs near the dtype's overflow threshold are outside the quantifier: e.g. IsoLineEmitter with elites at +-3e38 "
+    "in a float32 archive (the direction p2 - p1 overflows) is not read as a violation of 'finite'",
+    "a bounded OpenAI-ES whose Adam step moves the mean outside the box makes ask() resample indefinitely: the "
+    "resampling strategies are documented not to terminate when the mean is outside the bounds, so this is not read "
+    "as a violation (the narrow-slab cases of openai_es are limited to one iteration for that reason)",
     "operator noise is reproduced from the emitter's seed with the same generator construction and call order as the "
     "code (np.random.default_rng(seed).normal(scale=sigma, size=...).astype(solution dtype))",
     "parents are replayed by calling sample_elites on a deep copy of the archive taken immediately before ask",
@@ -1147,9 +1157,6 @@ def run_long_linear(case, ctx):
             if es == "sep_cma_es" and isinstance(out, np.ndarray) and out.shape == (batch, dim) and \
                     not np.any(np.isnan(out)) and np.any(np.isinf(out)):
                 f.key = D51_KEY
-                import os as _os
-                if _os.environ.get("TMP_MASK_D51") == "1":  # TEMPORARY (validation only)
-                    return None
                 f.what += (f" -- {int(np.sum(np.isinf(out)))} inf entries after {em.restarts} restarts: sigma and the "
                            f"diagonal covariance grow without bound on a linear objective and no stop criterion fires")
             return f
